@@ -756,6 +756,9 @@ func genDet(stream string, seed uint64, n int, replicas int) []GenCase {
 		"x = {\"one\": 1, \"two\": 2, \"three\": 3, \"four\": 4, \"five\": 5, \"six\": 6, \"seven\": 7, \"eight\": 8}; return [x, keys(x), len(x)];",
 		"return sort([\"b\", \"a\", \"C\", \"A\", \"c\", \"B\"], true);",
 		"return {1: {2: {3: {\"b\": 1, \"a\": 2}}}};",
+		// the printed form of an array is its elements joined by ", " between brackets - whatever the last element is
+		"return [string([\"a\", \"\"]) == \"[a, ]\", string([\"a \"]) == \"[a ]\", string([\"a,\"]) == \"[a,]\", string([[1, \"\"], 2]) == \"[[1, ], 2]\", string(split(\"x,y,\", \",\")) == \"[x, y, ]\", string([\"\"]) == \"[]\", string([\", \"]) == \"[, ]\"];",
+		"return [[\"a\", \"\"], [\"a \"], [\"b,\", \", \"], split(\"x,y,\", \",\"), {\"k\": [\"\", \"\"]}];",
 		// keys() lists the keys in the same fixed order, same-spelling keys of different types included
 		"h = {1: 1, 1.0: 2, \"1\": 3, 2: 4, 2.0: 5, \"2\": 6, 10: 7, 10.0: 8, \"10\": 9, true: 10, \"true\": 11}; t = \"\"; foreach k in keys(h) { t = t + type(k) + string(h[k]) + \",\"; } u = \"\"; foreach k, v in h { u = u + type(k) + string(v) + \",\"; } return [t, u, t == u];",
 		"h = {7.0: \"f\", 7: \"i\", \"7\": \"s\", 8.0: \"f\", 8: \"i\", \"8\": \"s\"}; ks = keys(h); return [type(ks[0]), type(ks[1]), type(ks[2]), type(ks[3]), type(ks[4]), type(ks[5])];",
@@ -784,6 +787,14 @@ func genDet(stream string, seed uint64, n int, replicas int) []GenCase {
 	}
 	for i, s := range fixed {
 		mk(s, i)
+	}
+	// values print in ONE fixed form, determined by their elements alone: stated directly
+	for j, e := range []string{"string([\"a\", \"\"]) == \"[a, ]\"", "string([\"a \"]) == \"[a ]\"", "string([\"a,\"]) == \"[a,]\"", "string([[1, \"\"], 2]) == \"[[1, ], 2]\"",
+		"string(split(\"x,y,\", \",\")) == \"[x, y, ]\"", "string([\"\"]) == \"[]\"", "string([\", \"]) == \"[, ]\"", "string([]) == \"[]\"", "string([1, [2, [3, []]]]) == \"[1, [2, [3, []]]]\"",
+		"string({\"k\": \"\"}) == \"{k: }\"", "string([true, false]) == \"[true, false]\"", "string([1.5, 2.0]) == \"[1.5, 2]\""} {
+		c := Case{ID: fmt.Sprintf("%s-print-%d", stream, j), Script: "return " + e + ";", Opt: j%2 == 0, Fns: []HostFn{recFn()}, Tags: []string{"determinism", "printed-form"},
+			Runs: []Run{{Obj: stdObject(r), Polls: defaultPolls}}}
+		out = append(out, GenCase{Case: c, Stream: stream, NonTrivial: true, Role: "expecttrue"})
 	}
 	// a host map whose keys differ only by the legacy `$` prefix: each name still reads one fixed entry
 	{
@@ -832,6 +843,16 @@ func genApi(stream string, seed uint64, n int) []GenCase {
 			id++
 			out = append(out, GenCase{Case: c, Stream: stream, NonTrivial: true, Role: "api"})
 		}
+	}
+	// a host variable whose NAME begins with `$` is just a name to SetVariable / GetVariable: stored and read back verbatim
+	for j, script := range []string{"return 1;", "return v;", "v = 5; return $v;", "w = 2; return w;"} {
+		c := Case{ID: fmt.Sprintf("%s-%d", stream, id), Script: script, Opt: j%2 == 0, Show: []string{"runbool", "spec"}, Tags: []string{"api:variable", "dollar-named-variable"}, Fns: []HostFn{recFn()},
+			Runs: []Run{{Obj: stdObject(r), Polls: defaultPolls}, {Obj: stdObject(r), Polls: defaultPolls}}}
+		c.AddVar("$limit", VInt(17))
+		c.AddVar("v", VInt(3))
+		c.AddVar("$w", VStr("dollar w"))
+		id++
+		out = append(out, GenCase{Case: c, Stream: stream, NonTrivial: true, Role: "api"})
 	}
 	// the same evaluator prepared again with ANOTHER script: variables stay; functions, constants and code of
 	// the first script are gone (an unknown function is an error again)
